@@ -137,9 +137,85 @@ def cmd11 (ts : List String) : String :=
     | _ => "bad-args"
   | _ => "bad-args"
 
+/-! ### ADF15:  `adf15 hf isH oneE bnd dialect nblocks {isel wl typ nN nT ne.. te.. rate(i_ne, i_te)..} ncfg {id conf spin l j} nidx {isel wl up lo typ}`
+blanks inside a configuration are sent as `_` -/
+
+def fnRow (nT : Nat) (xs : List String) : Nat → Nat → String := fun i j => xs.getD (i * nT + j) "?"
+
+def typOf (s : String) : RateType := match s with | "EXCIT" => .excit | "RECOM" => .recom | _ => .chexc
+
+def unders (s : String) : String := s.replace "_" " "
+def spaces (s : String) : String := s.replace " " "_"
+
+def readBlks15 : Nat → List String → List (Blk15 String String) × List String
+  | 0, ts => ([], ts)
+  | n + 1, ts =>
+    match ts with
+    | isel :: wl :: typ :: nN :: nT :: rest =>
+      let (ne, rest) := takeN (pN nN) rest
+      let (te, rest) := takeN (pN nT) rest
+      let (rs, rest) := takeN (pN nN * pN nT) rest
+      let (bs, rest) := readBlks15 n rest
+      ({ isel := pN isel, wl := wl, typ := typOf typ, ne := ne, te := te, rate := fnRow (pN nT) rs } :: bs, rest)
+    | _ => ([], [])
+
+def readCfgs15 : Nat → List String → List (Cfg15 String) × List String
+  | 0, ts => ([], ts)
+  | n + 1, ts =>
+    match ts with
+    | id :: conf :: spin :: l :: j :: rest =>
+      let (cs, rest) := readCfgs15 n rest
+      ({ id := pN id, conf := unders conf, spin := spin, l := pN l, j := j } :: cs, rest)
+    | _ => ([], [])
+
+def readIdx15 : Nat → List String → List (Idx15 String)
+  | 0, _ => []
+  | n + 1, ts =>
+    match ts with
+    | isel :: wl :: up :: lo :: typ :: rest =>
+      { isel := pN isel, wl := wl, up := pN up, lo := pN lo, typ := typOf typ } :: readIdx15 n rest
+    | _ => []
+
+def showLevel : Level String → String
+  | .n k => "n" ++ toString k
+  | .cfg conf spin l j => "c~" ++ spaces conf ++ "~" ++ spin ++ "~" ++ toString l ++ "~" ++ j
+
+def show15rates (cls : String) (l : List (Trans String × Rate15 String)) : List String :=
+  l.map fun kv => cls ++ ";" ++ showLevel kv.1.1 ++ ";" ++ showLevel kv.1.2 ++ ";ne:" ++ vec kv.2.ne ++ ";te:" ++ vec kv.2.te
+    ++ ";rate:" ++ mat kv.2.rate
+
+def show15 : Except Err (Out15 String String String) → String
+  | .error e => "err " ++ e.toString
+  | .ok o => "ok " ++ "!".intercalate (show15rates "excitation" o.excitation ++ show15rates "recombination" o.recombination
+      ++ show15rates "thermalcx" o.thermalcx
+      ++ o.wavelength.map fun kv => "wavelength;" ++ showLevel kv.1.1 ++ ";" ++ showLevel kv.1.2 ++ ";wl:" ++ kv.2)
+
+def cmd15 (ts : List String) : String :=
+  match ts with
+  | hf :: isH :: oneE :: bnd :: dialect :: nb :: rest =>
+    let (blocks, rest) := readBlks15 (pN nb) rest
+    match rest with
+    | ncfg :: rest =>
+      let (cfgs, rest) := readCfgs15 (pN ncfg) rest
+      match rest with
+      | nidx :: rest =>
+        let idx := readIdx15 (pN nidx) rest
+        let d : Dialect := match dialect with | "h" => .hydrogen | "hl" => .hydrogenLike | "f1" => .full true | _ => .full false
+        let t : Tab15 String String String := ⟨blocks, cfgs, idx, d⟩
+        let sel : Sel15 := ⟨(match hf with | "h" => some .hydrogen | "hl" => some .hydrogenLike | _ => none), pB isH, pB oneE, pB bnd⟩
+        let ks := render15 t
+        let text := ks.map text15
+        let a := parse15 lexK15 sel ks
+        let b := parse15 lex15 sel text
+        joinLines text ++ "#" ++ show15 b ++ "#" ++ fB (show15 a == show15 b)
+      | _ => "bad-args"
+    | _ => "bad-args"
+  | _ => "bad-args"
+
 def step (ts : List String) : String :=
   match ts with
   | "adf2x" :: r => cmd2x r
+  | "adf15" :: r => cmd15 r
   | "adf12" :: r => cmd12 r
   | "adf11" :: r => cmd11 r
   | _ => "bad-op"
